@@ -756,6 +756,9 @@ func genDet(stream string, seed uint64, n int, replicas int) []GenCase {
 		"x = {\"one\": 1, \"two\": 2, \"three\": 3, \"four\": 4, \"five\": 5, \"six\": 6, \"seven\": 7, \"eight\": 8}; return [x, keys(x), len(x)];",
 		"return sort([\"b\", \"a\", \"C\", \"A\", \"c\", \"B\"], true);",
 		"return {1: {2: {3: {\"b\": 1, \"a\": 2}}}};",
+		// keys() lists the keys in the same fixed order, same-spelling keys of different types included
+		"h = {1: 1, 1.0: 2, \"1\": 3, 2: 4, 2.0: 5, \"2\": 6, 10: 7, 10.0: 8, \"10\": 9, true: 10, \"true\": 11}; t = \"\"; foreach k in keys(h) { t = t + type(k) + string(h[k]) + \",\"; } u = \"\"; foreach k, v in h { u = u + type(k) + string(v) + \",\"; } return [t, u, t == u];",
+		"h = {7.0: \"f\", 7: \"i\", \"7\": \"s\", 8.0: \"f\", 8: \"i\", \"8\": \"s\"}; ks = keys(h); return [type(ks[0]), type(ks[1]), type(ks[2]), type(ks[3]), type(ks[4]), type(ks[5])];",
 		// runs that end inside a top-level loop leave nothing behind: a second run is the first one again
 		"if (item) { rec(item); return 100; } foreach item in [5, 6] { return item; } return 7;",
 		"if (k) { return [k, v]; } foreach k, v in {\"a\": 1} { foreach c in \"xy\" { if (c == \"y\") { return c; } } } return 7;",
